@@ -6,8 +6,11 @@ cd /repo || exit 9
 if ! git diff --quiet; then echo "REPO DIRTY"; exit 9; fi
 git apply "$P" || { echo "PATCH DOES NOT APPLY"; exit 9; }
 cd /verif
+rm -rf /tmp/vx-evid-save && cp -r /verif/evidence /tmp/vx-evid-save
 for c in "$@"; do
   out=$(./check $c quick 2>&1); rc=$?
   echo "[$c rc=$rc] $(echo "$out" | grep -E 'VIOLATION|UNDECIDED|OK|KNOWN' | head -4 | tr '\n' ' ')"
 done
 git -C /repo checkout -- .
+# evidence written while the tree was mutated is not evidence about /repo: restore the previous files (replays are kept)
+cp /tmp/vx-evid-save/*.json /verif/evidence/ 2>/dev/null; rm -rf /tmp/vx-evid-save
